@@ -77,6 +77,22 @@ impl C02 {
 
 const SLACK_US: u64 = 1_500_000;
 
+/// a flow the scenario's own application turns down (reset by the writer, stop_sending /
+/// drop by the reader): its operations are expected to fail, it makes no delivery claim
+fn rejected_by_app(cx: &Ctx, flow: &FlowKey) -> bool {
+    use crate::params::{End, ReadMode};
+    let Some(plan) = cx.plans.get(&(flow.client, flow.stream)) else { return false };
+    let fwd_dir = if plan.by_server { Dir::S2C } else { Dir::C2S };
+    let f = if flow.dir == fwd_dir { Some(&plan.fwd) } else { plan.rev.as_ref() };
+    match f {
+        Some(f) => {
+            matches!(f.end, End::Reset { .. })
+                || matches!(f.read, ReadMode::StopSending { .. } | ReadMode::RejectAfter { .. })
+        }
+        None => false,
+    }
+}
+
 impl Monitor for C02 {
     fn on_app(&mut self, cx: &mut Ctx, ep: EpId, t: u64, op: &AppOp) {
         match op {
@@ -118,13 +134,35 @@ impl Monitor for C02 {
                 self.recv_end.insert(*flow);
                 cx.summary.count("c02.flows_completed", 1);
             }
-            AppOp::SendErr { flow, err, .. } => self.errors.push(format!("ep{ep} send {flow:?}: {err}")),
+            AppOp::SendErr { flow, err, .. } => {
+                if rejected_by_app(cx, flow) && err.contains("StreamReset") {
+                    cx.summary.count("c02.rejected_flow_errors", 1);
+                } else {
+                    self.errors.push(format!("ep{ep} send {flow:?}: {err}"))
+                }
+            }
             AppOp::SendClosed {
                 flow,
                 ok: false,
                 err,
-            } => self.errors.push(format!("ep{ep} close {flow:?}: {err}")),
-            AppOp::RecvErr { flow, err, .. } => self.errors.push(format!("ep{ep} recv {flow:?}: {err}")),
+            } => {
+                if rejected_by_app(cx, flow) && err.contains("StreamReset") {
+                    cx.summary.count("c02.rejected_flow_errors", 1);
+                } else {
+                    self.errors.push(format!("ep{ep} close {flow:?}: {err}"))
+                }
+            }
+            AppOp::RecvErr { flow, err, .. } => {
+                if rejected_by_app(cx, flow) && err.contains("StreamReset") {
+                    cx.summary.count("c02.rejected_flow_errors", 1);
+                } else {
+                    self.errors.push(format!("ep{ep} recv {flow:?}: {err}"))
+                }
+            }
+            AppOp::StopSending { .. } => {
+                cx.summary.count("c02.streams_rejected_by_reader", 1);
+                cx.feature("app_rejected_stream");
+            }
             _ => {}
         }
     }
@@ -289,7 +327,7 @@ impl Monitor for C02 {
             let missing: Vec<String> = self
                 .finished
                 .keys()
-                .filter(|f| !self.recv_end.contains(f))
+                .filter(|f| !self.recv_end.contains(f) && !rejected_by_app(cx, f))
                 .map(|f| format!("{f:?}"))
                 .collect();
             if !missing.is_empty() && self.errors.is_empty() && pending.is_empty() {
